@@ -316,7 +316,9 @@ func c02API(r *ev.Run, shardI, shardN int) scopeReport {
 		set  string
 		z    int
 		x, y float64
-	}{{"NetherlandsRDNewQuad", 14, 155000, 463000}, {"NetherlandsRDNewQuad", 14, 20000.3, 380000.7}, {"NetherlandsRDNewQuad", 9, 20000.3, 380000.7}, {"WebMercatorQuad", 17, 550000.1, 6800000.2}} {
+	}{{"NetherlandsRDNewQuad", 14, 155000, 463000}, {"NetherlandsRDNewQuad", 14, 20000.3, 380000.7}, {"NetherlandsRDNewQuad", 9, 20000.3, 380000.7}, {"WebMercatorQuad", 17, 550000.1, 6800000.2},
+		// negative coordinates (west of the RD origin, south-west quadrant of WebMercator): conversions that treat the sign differently
+		{"NetherlandsRDNewQuad", 14, -100000.3, 380000.7}, {"NetherlandsRDNewQuad", 5, -43.84, 300000.1}, {"WebMercatorQuad", 17, -550000.1, -6800000.2}} {
 		if r.Expired() {
 			rep.Exhaustive = false
 			break
